@@ -14,8 +14,10 @@
 //!  * every loaded config file is `<root>/<20 hex digits>/config.toml`, lexically and after
 //!    resolving symlinks;                                     `secure-config:path-outside-config-dir`
 //!  * a config-id file that is not 20 hex digits never yields a config   `secure-config:malformed-id-accepted`
-//!  * a writable copy (`cp a b`) of a repo whose original still exists and whose config was known
-//!    gets a different file, with the original's content, and the original's config dir is not
+//!  * a writable copy (`cp a b`) of a repo whose original still exists — i.e. the copied config-id
+//!    names a config dir whose metadata records the original's path, that path is still a real
+//!    directory carrying the same id, and nothing touched either directory since — gets a different
+//!    file, with the original's content, and the original's config dir is not
 //!    written to by that load                                  `secure-config:copy-shares-original-config`,
 //!                                                             `secure-config:copy-load-modified-original`,
 //!                                                             `secure-config:copy-content-not-copied`
@@ -82,7 +84,16 @@ impl World {
     fn lstat(&self, r: usize) -> Option<fs::Metadata> { fs::symlink_metadata(self.repo(r)).ok() }
     fn is_real_dir(&self, r: usize) -> bool { self.lstat(r).is_some_and(|m| m.is_dir()) }
     fn is_absent(&self, r: usize) -> bool { self.lstat(r).is_none() }
-    fn canon_id(&self, name: &str) -> String { match self.gens.get(name) { Some(k) => gen_name(*k), None => name.to_string() } }
+    /// canonical name of a config dir: generated ids by generation order; anything that is not plain
+    /// alphanumeric (only reachable if the id validation is broken) hex-escaped, so that the answer
+    /// stays one line
+    fn canon_id(&self, name: &str) -> String {
+        match self.gens.get(name) {
+            Some(k) => gen_name(*k),
+            None if name.chars().all(|c| c.is_ascii_alphanumeric()) => name.to_string(),
+            None => format!("h{}", hex(name.as_bytes())),
+        }
+    }
     fn repo_index(&self, p: &Path) -> Option<usize> { (0..NREPO).find(|r| self.repo(*r) == p) }
     /// the valid id currently in r's id file (through symlinks), as the user would read it
     fn current_id(&self, r: usize) -> Option<String> {
@@ -198,7 +209,8 @@ impl World {
                         Ok(b) => match String::from_utf8(b) {
                             Err(_) => "x".to_string(),
                             Ok(s) => {
-                                let s = if s == self.td.path().join("evil").to_str().unwrap() { "/abs/evil".to_string() } else { self.canon_id(&s) };
+                                let s = if s == self.td.path().join("evil").to_str().unwrap() { "/abs/evil".to_string() }
+                                        else { match self.gens.get(&s) { Some(k) => gen_name(*k), None => s } };
                                 format!("t{}", hex(s.as_bytes()))
                             }
                         },
@@ -263,11 +275,21 @@ fn run_seq(out: &mut Out, ops: &[Op], workspace_kind: bool, seed: u64) {
     let mut toks = vec![];
     let mut failures: Vec<(&'static str, String)> = vec![];
     let mut oracle_checks = 0u64;
+    let mut copy_checked = 0u64;
     for op in ops {
         let (r, gen_if_none) = match op { Op::Load(r) => (*r, false), Op::LoadC(r) => (*r, true), other => { w.user_op(other); toks.push(".".to_string()); continue; } };
         let repo_dir = w.repo(r);
         let id_bytes = fs::read(repo_dir.join(w.id_name())).ok();
         let origin_snapshot = w.origin[r].as_ref().map(|(a, _, f, _)| (*a, f.clone(), dir_snapshot(f.parent().unwrap())));
+        // Precondition of the copy clause, read off the disk before the load: the copy's config-id file
+        // still names the original's config dir, the original's own config-id file too, and that config
+        // dir belongs to the original (its metadata records the original's path, which is a real directory).
+        let copy_precondition = w.origin[r].as_ref().is_some_and(|(a, _, f, _)| {
+            let dir = f.parent().unwrap();
+            let names_dir = |bytes: &Option<Vec<u8>>| bytes.as_deref().is_some_and(|b| well_formed(b) && w.root.join(std::str::from_utf8(b).unwrap()) == dir);
+            names_dir(&id_bytes) && names_dir(&fs::read(w.repo(*a).join(w.id_name())).ok())
+                && read_metadata(dir).ok().is_some_and(|m| matches!(metadata_path(&m), Ok(Some(p)) if p == w.repo(*a)))
+        });
         let sc = if workspace_kind { SecureConfig::new_workspace(repo_dir.clone()) } else { SecureConfig::new_repo(repo_dir.clone()) };
         let root = w.root.clone();
         let res = { let rng = &mut w.rng; guard(move || if gen_if_none { sc.load_config(rng, &root) } else { sc.maybe_load_config(rng, &root) }) };
@@ -316,8 +338,9 @@ fn run_seq(out: &mut Out, ops: &[Op], workspace_kind: bool, seed: u64) {
                 // (c) a writable copy whose original still exists gets its own copy
                 if let Some((a, av, afile, _)) = w.origin[r].clone() {
                     let writable = fs::metadata(&repo_dir).map(|m| m.permissions().mode() & 0o200 != 0).unwrap_or(false) || is_root();
-                    if w.version[a] == av && w.is_real_dir(a) && w.is_real_dir(r) && writable {
+                    if copy_precondition && w.version[a] == av && w.is_real_dir(a) && w.is_real_dir(r) && writable {
                         oracle_checks += 1;
+                        copy_checked += 1;
                         let a_now = w.known[a].as_ref().map(|k| k.1.clone());
                         if *p == afile || Some(p.clone()) == a_now {
                             failures.push(("secure-config:copy-shares-original-config", format!("r{r} is a writable copy of r{a} (which still exists, config {}), but loading it returned the same file {}", afile.display(), p.display())));
@@ -350,6 +373,7 @@ fn run_seq(out: &mut Out, ops: &[Op], workspace_kind: bool, seed: u64) {
         out.tally("load result", &k);
     }
     out.tally("ops", &ops.len().to_string());
+    for _ in 0..copy_checked { out.tally("oracle", "copy clause applied (writable copy, original still there)"); }
     let loads = toks.iter().filter(|t| *t != ".").count();
     if loads >= 2 && ops.iter().any(|o| matches!(o, Op::Cp(..) | Op::Mv(..) | Op::SetId(..) | Op::Ln(..))) { out.nontrivial(ops.to_vec()); }
     if failures.is_empty() { for _ in 0..oracle_checks.max(1) { out.oracle_ok(); } }
